@@ -496,7 +496,6 @@ func runAfterClose(out caser, kind, cap, nqueued, nlate int, viaConn bool) {
 		return ch.NextPackageUntil(ctx, false, func(tds.Package) (bool, error) { return true, nil })
 	})
 	call(func() (tds.Package, error) { return nil, ch.QueuePackage(ctx, pkg) })
-	_ = errTree
 	call(func() (tds.Package, error) { return nil, ch.SendRemainingPackets(ctx) })
 	call(func() (tds.Package, error) { return nil, ch.SendPackage(ctx, pkg) })
 	call(func() (tds.Package, error) { return nil, ch.Close() })
